@@ -329,4 +329,102 @@ PROPS = {
         "assumptions": ["files <= 250 KB"],
         "real": LZ_REAL, "stub": LZ_STUB + ["the file (simulated reads and seeks)"],
     },
+
+    "C01": {
+        "level": "exploration",
+        "legs": {
+            "quick": [{"flavour": "asan", "runs": 12000, "seconds": 160}],
+            "thorough": [{"flavour": "asan", "runs": 200000, "seconds": 1500},
+                         {"flavour": "tsan", "runs": 6000, "seconds": 300, "scen": "encoder_roundtrip"}],
+        },
+        "nontrivial": "features2",
+        "level_text": "Encoder sessions (easy, stream, threaded stream under the deterministic scheduler, .lzma, raw with LZMA1 or LZMA2 "
+                      "and BCJ/delta chains and preset dictionaries) with seeded option sets (preset 0-9 +-extreme, lc/lp/pb, match "
+                      "finder, depth, nice_len, mode, dict 4 KiB-1.5 MiB, check, block size), delivery schedules and thread schedules; "
+                      "the match-finder knob (hook H1) makes normalize(), move_window() and the position wrap happen within the "
+                      "input instead of after 4 GiB. Single-call encoders and the output-size-limited MicroLZMA encoder are run "
+                      "with seeded sizes and limits. Oracle: decoding with the matching liblzma decoder returns the input and "
+                      "LZMA_STREAM_END; MicroLZMA: the decoded bytes equal input[0..total_in) and total_out <= limit.",
+        "level_note": "Oracle-riding: the statement quantifies over inputs and configurations; what simulation adds is the delivery/"
+                      "schedule/knob dimension. Seeded sampling, no claim of covering the input space.",
+        "rule": "One evaluation = one encoder session or single-call encode. distinct_nontrivial = distinct (entry point, chain shape, "
+                "input class, knob used, flush history present) tuples with input >= 64 bytes, plus distinct (api, chain, size "
+                "class, input class) tuples for single-call runs.",
+        "assumptions": ["inputs <= 100 KiB (quick) / 3 MiB (thorough)"],
+        "real": LZ_REAL, "stub": LZ_STUB,
+    },
+    "C02": {
+        "level": "exploration",
+        "legs": {
+            "quick": [{"flavour": "asan", "runs": 12000, "seconds": 160}],
+            "thorough": [{"flavour": "asan", "runs": 200000, "seconds": 1500}],
+        },
+        "nontrivial": "features",
+        "level_text": "The outputs of the encoder sessions of C01, C08 and C12 (all entry points, flush/barrier/update histories, "
+                      "threaded under the scheduler) and of the single-call encoders are judged by an independent reference "
+                      "implementation written from doc/xz-file-format.txt, doc/lzma-file-format.txt and the LZMA specification "
+                      "(model/refxz, reflzma, refbcj, refcheck; no liblzma code): the bytes must parse as exactly one valid Stream "
+                      "(or .lzma / raw LZMA2 stream), every stored field must be truthful (Block Header size fields, Index records "
+                      "vs. real Block sizes, Backward Size, equal Stream Flags, every CRC32 and Check recomputed bit-at-a-time / "
+                      "textbook SHA-256, zero padding, LZMA2 chunk sizes, declared dictionary >= farthest match distance seen by "
+                      "the reference decoder) and the reference must recover the input. Bound clause: single-call encoders given "
+                      "lzma_stream_buffer_bound()/lzma_block_buffer_bound() bytes never return LZMA_BUF_ERROR, for sizes around the "
+                      "64 KiB chunk and 2 MiB LZMA2 limits and incompressible content.",
+        "level_note": "Oracle-riding. RISC-V BCJ is not implemented by the reference: such chains are validated by liblzma's decoder only "
+                      "(counted as oracle.ref_unsupported).",
+        "rule": "One evaluation = one encoder session / single-call encode validated by the reference. distinct_nontrivial = "
+                "distinct schedule trace hashes (threaded) or distinct plans.",
+        "assumptions": ["the reference models are cross-validated against liblzma on valid-by-construction streams in C03"],
+        "real": LZ_REAL, "stub": LZ_STUB + ["the judge: model/refxz, reflzma, refbcj, refcheck"],
+    },
+    "C03": {
+        "level": "exploration",
+        "legs": {
+            "quick": [{"flavour": "asan", "runs": 40000, "seconds": 160}],
+            "thorough": [{"flavour": "asan", "runs": 700000, "seconds": 1500}],
+        },
+        "nontrivial": "features",
+        "level_text": "Valid-by-construction artefacts from a generative encoder (model/reflzma synth: draws legal LZMA symbols - "
+                      "literal, matched literal, match with any length/distance slot, short rep, rep0-3 - and LZMA2 chunk sequences of "
+                      "every control class: uncompressed with/without dictionary reset, LZMA chunks with no reset, state reset, new "
+                      "properties for all lc/lp/pb, dictionary reset in mid-stream) wrapped by the reference .xz writer in every legal "
+                      "layout the project's encoder never emits (Blocks with/without either size field, header padding, 1-4 filters "
+                      "incl. delta and six BCJ filters with start offsets, empty Blocks and Streams, all 16 Check IDs, multiple Blocks "
+                      "and Streams, Stream Padding) and files with reserved bits / unknown filter IDs / misplaced LZMA2 whose CRC32s "
+                      "are right; plus stored-byte-fault variants. The real stream, auto, threaded and raw decoders read them under "
+                      "seeded delivery. Oracle: liblzma succeeds exactly when the reference parser calls the bytes a valid supported "
+                      "stream, the output equals the reference decoding, unsupported-but-well-formed input is refused, and "
+                      "LZMA_UNSUPPORTED_CHECK appears exactly for Check IDs the build cannot verify.",
+        "level_note": "Only success/failure and bytes are compared, not which error code. The documented relaxation (dictionary raised to "
+                      "4 KiB and rounded up to a multiple of 16) is encoded in the reference; nothing else is. RISC-V BCJ not in the "
+                      "reference.",
+        "rule": "One evaluation = one artefact decoded by one decoder. distinct_nontrivial = distinct (set of container features, set of "
+                "LZMA/LZMA2 grammar features, faulted?, reference verdict) tuples.",
+        "assumptions": ["artefacts <= ~300 KB of plaintext"],
+        "real": LZ_REAL, "stub": LZ_STUB + ["the judge: model/refxz, reflzma, refbcj, refcheck"],
+    },
+    "C16": {
+        "level": "exploration",
+        "legs": {
+            "quick": [{"flavour": "asan", "runs": 40000, "seconds": 160}],
+            "thorough": [{"flavour": "asan", "runs": 600000, "seconds": 1500}],
+        },
+        "nontrivial": "features",
+        "level_text": "Generated .lzma files (every lc/lp/pb, eleven dictionary-size values incl. implausible ones, known/unknown size, "
+                      "with/without end marker, optional bytes after the stream), .lz files (versions 0 and 1, every dictionary size "
+                      "code, 1-3 members, foreign trailing data beginning with 0-4 bytes of the ID string) and concatenations of .xz "
+                      "Streams with 0-9 bytes of padding, each also with stored-byte faults, are read by the .lzma, .lz, stream, "
+                      "threaded-stream and auto-detecting decoders under seeded delivery aimed at the magic bytes and the end of the "
+                      "first stream, with and without LZMA_CONCATENATED, with LZMA_RUN only or LZMA_FINISH. Oracle: reference "
+                      "decoders written from the format documents decide valid/invalid and the content; auto == specific decoder for "
+                      ".xz, .lz and plausible .lzma, LZMA_FORMAT_ERROR otherwise; padding must be a multiple of four; .lz trailing "
+                      "data is left unread (input position within 3 bytes of the last member's end, as documented); .lzma followed "
+                      "by anything is an error with LZMA_CONCATENATED; without it total_in is exactly the end of the first stream; "
+                      "concatenated decoding never ends without LZMA_FINISH.",
+        "level_note": "xz -dc --format / --single-stream / xzdec / lzmadec are exercised by C18's xzsim runs.",
+        "rule": "One evaluation = one artefact read by two or three decoders. distinct_nontrivial = distinct (format variant, fault, "
+                "tail kind, flags) tuples.",
+        "assumptions": [],
+        "real": LZ_REAL, "stub": LZ_STUB + ["the judge: model/reflzma, refxz and the reference .lz parser in scen_ref.cpp"],
+    },
 }
